@@ -2,10 +2,10 @@
    Only statements, closed by [exact lemma], with Print Assumptions beneath. *)
 From Coq Require Import String List NArith Bool Permutation.
 From J5V.lib Require Import Outcome.
-From J5V.model Require Import Pipeline PipelineCompile PipelineEntity PipelineCorr.
+From J5V.model Require Import Pipeline PipelineCompile PipelineEntity PipelineValid PipelineCorr.
 From J5V.gen Require SwaggerGen.
 From J5V.lib Require Strcase.
-From J5V.proofs Require Import PipelineProofs PipelineStrcaseProofs StrcaseProofs PipelineChainProofs PipelinePathProofs PipelineEntityProofs.
+From J5V.proofs Require Import PipelineProofs PipelineStrcaseProofs StrcaseProofs PipelineChainProofs PipelinePathProofs PipelineEntityProofs PipelineValidProofs.
 Import ListNotations.
 Local Open Scope N_scope.
 
@@ -37,6 +37,14 @@ Theorem C16_full : C16_full_statement.
 Proof. exact chain_full. Qed.
 Print Assumptions C16_full.
 
+
+
+(* the hypothesis of C16_full as a computable test: the compile-image stream evaluates it (with the model of
+   iancoleman/strcase ToSnake) on every generated package the real compiler accepted that has no entity and
+   no deliberately awkward property names, so each of them is inside C16_full *)
+Theorem C16_valid_test_sound : forall to_snake P, valid_package_b to_snake P = true -> valid_package to_snake P.
+Proof. exact valid_package_b_sound. Qed.
+Print Assumptions C16_valid_test_sound.
 
 (* ... instantiated with the byte-exact model of iancoleman/strcase ToSnake: the hypotheses on ToSnake are
    replaced by a condition on the request's property names (lowerCamel: letters, no two adjacent capitals);
@@ -368,11 +376,9 @@ Proof.
       intros [H|[]]. vm_compute in H. discriminate. }
     split; [apply Forall_cons; [intro E; vm_compute in E; discriminate|apply Forall_cons; [intro E; vm_compute in E; discriminate|apply Forall_nil]]|].
     split; [vm_compute; reflexivity|].
-    split.
-    { unfold wf_env. apply Forall_forall. intros ks Hks. vm_compute in Hks.
-      repeat (destruct Hks as [<-|Hks]; [unfold wf_props; cbn [snd schema_props]; repeat (apply Forall_cons; [vm_compute; reflexivity|]); apply Forall_nil|]).
-      contradiction. }
-    intros k [<-|[]]. vm_compute. discriminate.
+    unfold wf_env. apply Forall_forall. intros ks Hks. vm_compute in Hks.
+    repeat (destruct Hks as [<-|Hks]; [unfold wf_props; cbn [snd schema_props]; repeat (apply Forall_cons; [vm_compute; reflexivity|]); apply Forall_nil|]).
+    contradiction.
 Qed.
 
 (* a list method over a self-recursive item object: the chain succeeds and the list request carries
